@@ -486,6 +486,8 @@ def m_auth(hist, rec):
         ca.pop("stopped"), cb.pop("stopped")
         if not cfg(a)["stopped"] or ca != cb or state(a) != state(b) or batches(a) != batches(b):
             report(hist, "C10", "breaker_frame", {}, "circuit breaker changed more than the flag", rec)
+    if ok and var == "resume_contract" and c["sender"] != admin:
+        report(hist, "C10", "resume_auth", {"variant": var}, "ResumeContract succeeded for %s, who is not the admin" % c["sender"], rec)
     if ok and var == "resume_contract" and state(a) is not None and state(b) is not None:
         r = c["msg"][var]
         sa, sb = state(a), state(b)
